@@ -36,8 +36,12 @@ IsNum(x) == x > -1000000000 /\ x < 1000000000
 
 Init == tid \in 1..Len(Traces) /\ l = 1 /\ verdict = "ok" /\ drift = "" /\ done = FALSE
 
+\* summaries read back from a sampler's result must be integers of the input domain (the harness
+\* logs 999999 for anything else, e.g. uninitialised filler memory)
+Sane(u) == \A j \in 1..Len(u) : u[j] > -100000 /\ u[j] < 100000
 RowOK(e, i) ==
   LET N == MetricInt(M, StackRow(e.sums, i), StackObs(T.obs)) IN
+  /\ Sane(StackRow(e.sums, i))
   /\ IsNum(e.v[i]) /\ IsNum(e.sq[i])
   /\ IF Form(M) = "lin" THEN e.v[i] = N * U
      ELSE e.v[i] >= 0 /\ Den(M) * e.sq[i] = N * U
@@ -55,7 +59,7 @@ JudgeP(e) ==
 \* mechanism (visible only through a harness-supplied callable distance): XA is the (n, m) array
 \* of column-stacked summaries, XB the (1, m) array of stacked observed summaries
 JudgeM(e) ==
-  IF e.res # "val" \/ ~M.callable THEN ""
+  IF e.res # "val" \/ ~M.callable \/ e.xsh = <<>> THEN ""          \* nothing logged for this evaluation
   ELSE LET mm == Len(StackObs(T.obs)) IN
        IF e.xsh # <<NRows(e.sums), mm>> THEN "M:XA-shape"
        ELSE IF e.ysh # <<1, mm>> THEN "M:XB-shape"
